@@ -58,7 +58,8 @@ def _th(c, s):
 
 
 def model_check(ctx):
-    ctx.mc("MC_Transform", "MC_Transform_t.cfg" if ctx.thorough else "MC_Transform.cfg", coverage=True, timeout=3000)
+    # the model has no actions (one state per case, laws are state predicates): coverage only in the thorough tier
+    ctx.mc("MC_Transform", "MC_Transform_t.cfg" if ctx.thorough else "MC_Transform.cfg", coverage=ctx.thorough, timeout=3000)
     ctx.mc_expect("MC_Transform", "DEV_Transform_1.cfg", "LawImplRigid")
     ctx.mc_expect("MC_Transform", "DEV_Transform_2.cfg", "LawImplConforms")
 
@@ -74,7 +75,9 @@ def _rnd_angle(rng):
         return rng.choice((-1, 1)) * (0.05 + rng.choice((0.0, 1e-17, -1e-17, rng.gauss(0, 1e-3), rng.gauss(0, 1e-9))))
     if u < 0.92:
         return max(-TWO_PI, min(TWO_PI, rng.randint(-4, 4) * math.pi / 2 + rng.choice((0.0, rng.gauss(0, 1e-6)))))
-    return rng.choice((-1, 1)) * (TWO_PI - rng.choice((0.0, 10 ** rng.uniform(-12, -1))))
+    if u < 0.97:
+        return rng.choice((-1, 1)) * (TWO_PI - rng.choice((0.0, 10 ** rng.uniform(-12, -1))))
+    return rng.choice((0, 1, -1, 2, -3, 6, -6))           # int angles are allowed by the signatures
 
 
 def cases(ctx):
@@ -129,7 +132,10 @@ def build(mix):
     if "static" in mix:
         sc.add_objects(g.static_obstacle_from(21, g.rect(4, 2), g.init_state(2, 1, _th(3, 4))))
     if "dynamic" in mix:
-        sc.add_objects(g.dynamic_obstacle(22, 0, 1, g.rect(4, 2), poses=[(2, 1, 0.0), (4, 1, _th(4, 3)), (6, 2, _th(3, 4))]))
+        traj = [g.ks_state(1, (2, 1), 0.0), g.ks_state(2, (4, 1), _th(4, 3)), g.ks_state(3, (6, 2), _th(3, 4)),
+                g.ks_state(4, g.circle(1, (8, 3)), (_th(4, 3), _th(3, 4)))]
+        sc.add_objects(g.dynamic_obstacle_from(22, g.rect(4, 2), g.init_state(0, 1, 0.0),
+                                               g.trajectory_prediction_from_states(g.rect(4, 2), traj)))
         occ = [g.rect(2, 1, (3, -3), _th(4, 3)), g.circle(2, (5, -3)), g.polygon([(6, -4), (6, -1), (9, -2), (9, -4)]),
                g.shape_group([g.rect(2, 1, (10, -3), _th(0, 1)), g.circle(1, (12, -3)),
                               g.polygon([(13, -4), (14, -2), (15, -4)])])]
@@ -183,7 +189,7 @@ def _pname(path):
     return "/".join("%s:%s" % (a, b) for a, b in path)
 
 
-def walk(world, ov=None):
+def walk(world, ov=None, derived=True):
     """-> (components, derived): components = list of [kind, path, pts, oris] (floats), derived = {quantity: [(name, value)]}.
     ov maps a path to the object to observe instead of the stored one (objects returned by functional translate_rotate)."""
     from commonroad.common.util import AngleInterval
@@ -216,8 +222,10 @@ def walk(world, ov=None):
         comps.append(["lanelet_left", p, [tuple(v) for v in la.left_vertices], []])
         comps.append(["lanelet_center", p, [tuple(v) for v in la.center_vertices], []])
         comps.append(["lanelet_right", p, [tuple(v) for v in la.right_vertices], []])
-        der.setdefault("lanelet_length", []).append((_pname(p), la.distance[-1]))
-        der.setdefault("lanelet_area", []).append((_pname(p), la.polygon.shapely_object.area))
+        comps.append(["lanelet_polygon", p, [tuple(v) for v in la.polygon.vertices[:-1]], []])
+        if derived:         # Lanelet.distance is a lazily cached value: never read it before the motion (C11's business)
+            der.setdefault("lanelet_length", []).append((_pname(p), la.distance[-1]))
+            der.setdefault("lanelet_area", []).append((_pname(p), la.polygon.shapely_object.area))
         if la.stop_line is not None:
             comps.append(["stop_line", p + (("stop_line", "-"),), [tuple(la.stop_line.start), tuple(la.stop_line.end)], []])
     for s in sorted(net.traffic_signs, key=lambda x: x.traffic_sign_id):
@@ -234,7 +242,8 @@ def walk(world, ov=None):
         pred = ob.prediction
         if isinstance(pred, TrajectoryPrediction):
             for i, st in enumerate(pred.trajectory.state_list):
-                state(p + (PRED, TRAJ, ("state", str(i))), st, "trajectory_state", "trajectory_uncertain_ori")
+                state(p + (PRED, TRAJ, ("state", str(i))), st,
+                      "trajectory_region" if st.is_uncertain_position else "trajectory_state", "trajectory_ori_interval")
         elif isinstance(pred, SetBasedPrediction):
             for i, occ in enumerate(pred.occupancy_set):
                 po = p + (PRED, ("occupancy", str(i)))
@@ -411,7 +420,7 @@ def execute(case):
     cls = angle_class(case)
     twin = build(mix)                      # never moved: derived quantities "before" are read here
     world = build(mix)
-    before, _ = walk(world)
+    before, _ = walk(world, derived=False)
     _, der0 = walk(twin)
     ov = {}
     exc = _apply(world, ov, path, case["t"], angle_of(case))
@@ -420,7 +429,7 @@ def execute(case):
     base = {"tgt": [list(p) for p in path], "t": list(case["t"]), "rot": list(case["rot"]), "mix": list(mix)}
     kinds = sorted({c[0] for c in before})
     ev = [dict(op="call", tgt=base["tgt"], mix=list(mix), exc=exc, kinds=kinds, level=level,
-               sig="%s/mix=%s" % (level, "".join(r[0] for r in mix) or "-"))]
+               sig="%s/mix=%s" % (level, "".join(r[0] for r in ROLES if r in mix) or "-"))]
     for k in kinds:
         comps = []
         for kind, p, pts, oris in before:
@@ -468,7 +477,7 @@ def execute(case):
                             ok = 0
                 comps.append([[list(q) for q in p], ok])
             ev.append(dict(base, op="undo", mode=case["undo"], steps=case["steps"], kind=k, comps=comps,
-                           sig="%s/%s/%s/%s" % (level, k, cls, case["undo"])))
+                           sig="%s/%s/%s" % (level, k, cls)))
     return {"ev": ev}
 
 
